@@ -280,6 +280,10 @@ def run_one(seed, preset=None, tier="quick", want_case=False):
         mode = sab_t.choose(["bake_raises", "cancelled_in_bake", "invalid_sdl"])
         saboteurs.append((k, mode, bundles[sab_t.draw(len(bundles))]))
         ops.insert(sab_t.draw(len(ops) + 1), ("sabotage", k, None))
+    touched = []
+    if sab_t.chance(6):
+        # many other schema names get registrations while these bundles are between registration and cook
+        ops.insert(sab_t.draw(len(ops) + 1), ("touch", 0, None))
     sch = pick_scheduler(cfgt)
     loop = SimLoop(tape.sub("sched"), sch[0], sch[1], "gate")
     engines = {}
@@ -347,6 +351,17 @@ def run_one(seed, preset=None, tier="quick", want_case=False):
         tasks = []
         sab_tasks = []
         for kind, bi, step in ops:
+            if kind == "touch":
+                from tartiflette import Resolver as _Resolver
+
+                async def _noop(parent, args, ctx, info):
+                    return None
+                for k in range(300):
+                    nm = "C17_%d_touch%d" % (seed, k)
+                    touched.append(nm)
+                    _Resolver("Query.touched", schema_name=nm)(_noop)
+                loop.ev("touched_names", 300)
+                continue
             if kind == "sabotage":
                 k, mode, like = saboteurs[bi]
                 loop.ev("sabotage_start", k, mode)
@@ -408,6 +423,8 @@ def run_one(seed, preset=None, tier="quick", want_case=False):
                         viol.append(V("foreign_actor_invoked", "%s: an actor registered for another schema name ran: %r" % (
                             lab, [e for e in evs if e[0] == "foreign_actor"][:2])))
     finally:
+        for nm in touched:
+            forget(nm)
         for b in bundles:
             forget(b.name)
             sys.modules.pop(b.mod_name, None)
@@ -433,6 +450,7 @@ def run_one(seed, preset=None, tier="quick", want_case=False):
                    "four_bundles": int(len(bundles) == 4), "subscription_bundle": int(any(b.schema.subscription for b in bundles)),
                    "bundle_extends_builtin_scalar": int(any(b.extend_builtin for b in bundles)),
                    "broken_or_cancelled_cook_alongside": int(bool(saboteurs)),
+                   "300_other_schema_names_registered_meanwhile": int(bool(touched)),
                    "same_sdl_text_under_two_names": int(any(b.twin_of is not None for b in bundles)),
                    "twin_sdl_with_directive_on_extension": int(any(b.twin_of is not None and ("extend type Query @mark" in b.sdl or b.extend_builtin) for b in bundles)),
                    "bundle_overrides_builtin_scalar": int(any(b.override_id for b in bundles)),
